@@ -110,7 +110,8 @@ func GenCache(seed uint64) *Scenario {
 		n = rng.Range(1, 8)
 	}
 	bs.Games = genGames(rng, n, rng.Range(1, 24), rng.Range(1, 4))
-	if rng.Intn(60) == 0 {
+	large := rng.Intn(100) == 0
+	if large {
 		// a large book (thousands of positions): an encoder that writes in
 		// several messages only does so for big books
 		bs.Games = genGames(rng, rng.Range(400, 900), rng.Range(20, 36), 40)
@@ -136,6 +137,9 @@ func GenCache(seed uint64) *Scenario {
 	bs.AllPrefixes = n <= 8
 	kinds := []string{"truncate", "truncate", "flip", "flip", "flip", "garbage", "empty", "missing", "dir", "append", "zerofill"}
 	k := rng.Range(6, 30)
+	if large {
+		k = 4
+	}
 	for i := 0; i < k; i++ {
 		bs.Damage = append(bs.Damage, CacheDamage{Kind: kinds[rng.Intn(len(kinds))], At: rng.Intn(1 << 20), Bit: rng.Intn(8), Len: rng.Intn(4096)})
 	}
